@@ -561,10 +561,15 @@ def run_schedule(job):
         for w in ws:
             w.start()
         order = []
-        for x in sched:
+        for idx, x in enumerate(sched):
             if isinstance(x, int):             # order mode: one real step of that process
                 if not ws[x - 1].done():
                     order.append([x, ws[x - 1].step()])
+                # the last scheduled step of a process: it now runs to its end (it may have more scheduling points than in
+                # its solo run, e.g. because it meets what the other process has left half-done)
+                if x not in sched[idx + 1:]:
+                    while not ws[x - 1].done():
+                        order.append([x, ws[x - 1].step()])
                 continue
             p, lab = x
             if lab.startswith('end') or lab == 'KILL':
